@@ -540,8 +540,10 @@ func runMonitors(prop, dir string) {
 		script, trace := so.Text(), st.Text()
 		n++
 		m.script = script
-		if strings.HasPrefix(script, "rrt ") || strings.HasPrefix(script, "ort ") || strings.HasPrefix(script, "swrt ") {
-			if strings.HasPrefix(script, "rrt ") {
+		if strings.HasPrefix(script, "rrt ") || strings.HasPrefix(script, "ort ") || strings.HasPrefix(script, "swrt ") || strings.HasPrefix(script, "crt ") {
+			if strings.HasPrefix(script, "crt ") {
+				nobs += m.crt(script, trace)
+			} else if strings.HasPrefix(script, "rrt ") {
 				nobs += m.rrt(script, trace)
 			} else if strings.HasPrefix(script, "swrt ") {
 				nobs += m.swrt(script, trace)
